@@ -387,7 +387,22 @@ def match_known(known, pid, mon):
 # ---------------------------------------------------------------- the check
 
 def load_cfg(pid):
-    return json.load(open(os.path.join(ROOT, "checks", pid + ".json")))
+    """checks/<pid>.json, plus cross-cutting additions checks/_extra/<pid>.*.json (props_modules / required_theorems /
+    level_text_add / level_note_add are appended), so that work spanning several properties does not edit their files."""
+    cfg = json.load(open(os.path.join(ROOT, "checks", pid + ".json")))
+    xd = os.path.join(ROOT, "checks", "_extra")
+    if os.path.isdir(xd):
+        for f in sorted(os.listdir(xd)):
+            if f.startswith(pid + ".") and f.endswith(".json"):
+                x = json.load(open(os.path.join(xd, f)))
+                for k in ("props_modules", "required_theorems"):
+                    cfg[k] = list(cfg.get(k, [])) + [m for m in x.get(k, []) if m not in cfg.get(k, [])]
+                m = cfg.setdefault("manifest", {})
+                if x.get("level_text_add"):
+                    m["level_text"] = m.get("level_text", "").rstrip() + " " + x["level_text_add"].strip()
+                if x.get("level_note_add"):
+                    m["level_note"] = m.get("level_note", "").rstrip() + " " + x["level_note_add"].strip()
+    return cfg
 
 
 def check_property(pid, tier, seed, replay=None):
